@@ -19,6 +19,8 @@ import (
 //	op 3  dispatch: NormalDist{A,B} (kind 0) / DeltaDist{A} (kind 1): stats.InvCDF(d)(y) next to d.InvCDF(y),
 //	      stats.Rand(d)(r) next to d.Rand(r') for equally seeded sources (Seeds)
 //	op 4  stats.Rand of a c07PW with a scripted rand.Source (Src = the Int63 values it emits)
+//	op 6  built-ins without a quantile method and without an exact model on this side: TDist{A} (kind 0),
+//	      UDist{N,K,T} (kind 1), KDE{Sample: Xs, Bandwidth: B} (kind 2) — relational against their own CDF
 //	op 5  supporting evidence: Kolmogorov-Smirnov distance of N draws of stats.Rand(c07PW) from
 //	      rand.New(rand.NewSource(Seeds[0])) to the distribution's own CDF
 type c07Knot struct {
@@ -41,6 +43,8 @@ type c07Case struct {
 	B     F64       `json:"b,omitempty"`
 	Seeds []int64   `json:"seeds,omitempty"`
 	Src   []int64   `json:"src,omitempty"`
+	T     []int     `json:"t,omitempty"`
+	Xs    []F64     `json:"xs,omitempty"`
 }
 
 // c07PW implements stats.DistCommon (CDF, Bounds) and nothing else: no InvCDF, no Rand method.
@@ -267,6 +271,68 @@ func c07Run(raw []byte) (*Line, error) {
 		}
 		ist, inv := c07Call(stats.InvCDF(d), y) // a separate closure, a separate call
 		l.I(st).I(src.pos).F(y).F(draw).I(ist).F(inv)
+	case 6:
+		var dist stats.DistCommon
+		switch c.Kind {
+		case 0:
+			v := float64(c.A)
+			if !(v >= 0.5 && v <= 1e4) {
+				return nil, fmt.Errorf("bad degrees of freedom")
+			}
+			dist = stats.TDist{V: v}
+		case 1:
+			if c.N < 1 || c.K < 1 || c.N > 8 || c.K > 8 {
+				return nil, fmt.Errorf("bad sample sizes")
+			}
+			if c.T != nil {
+				sum := 0
+				for _, t := range c.T {
+					if t < 1 {
+						return nil, fmt.Errorf("bad tie vector")
+					}
+					sum += t
+				}
+				if sum != c.N+c.K {
+					return nil, fmt.Errorf("bad tie vector")
+				}
+			}
+			dist = stats.UDist{N1: c.N, N2: c.K, T: c.T}
+		case 2:
+			xs := fromF64s(c.Xs)
+			b := float64(c.B)
+			if len(xs) < 1 || len(xs) > 64 || !(b > 0 && b < 1e6) {
+				return nil, fmt.Errorf("bad kde")
+			}
+			for _, x := range xs {
+				if math.IsNaN(x) || math.Abs(x) > 1e7 {
+					return nil, fmt.Errorf("bad kde sample")
+				}
+			}
+			dist = &stats.KDE{Sample: stats.Sample{Xs: xs}, Bandwidth: b}
+		default:
+			return nil, fmt.Errorf("bad kind")
+		}
+		var bl, bh, cbl, cbh float64
+		if pan, msg := catch(func() {
+			bl, bh = dist.Bounds()
+			cbl, cbh = dist.CDF(bl), dist.CDF(bh)
+		}); pan {
+			return nil, fmt.Errorf("distribution unusable: %s", msg)
+		}
+		l.I(c.Kind).F(bl).F(bh).F(cbl).F(cbh)
+		inv := stats.InvCDF(dist)
+		l.I(len(c.Ys))
+		for _, y := range c.Ys {
+			st, x := c07Call(inv, float64(y))
+			xm, c0, cm := math.NaN(), math.NaN(), math.NaN()
+			if st == 0 && !math.IsNaN(x) && !math.IsInf(x, 0) {
+				xm = x - (1e-9*math.Abs(x) + 1e-15)
+				if pan, _ := catch(func() { c0, cm = dist.CDF(x), dist.CDF(xm) }); pan {
+					st = 2
+				}
+			}
+			l.F(float64(y)).I(st).F(x).F(xm).F(c0).F(cm)
+		}
 	case 5:
 		d, err := c07MakePW(&c)
 		if err != nil {
@@ -484,11 +550,16 @@ func c07GenYs(rng *rand.Rand, knots []c07Knot) []F64 {
 
 func c07DiscYs(rng *rand.Rand, cdf func(float64) float64, lo, hi int) []F64 {
 	ys := []float64{0, 1}
+	exact := rng.Intn(4) == 0
 	for i := 0; i < 8; i++ {
 		k := float64(lo + rng.Intn(hi-lo+1))
 		c := cdf(k)
 		prev := cdf(k - 1)
-		switch rng.Intn(5) {
+		kind := rng.Intn(5)
+		if kind == 0 && !exact {
+			kind = 1 + rng.Intn(4)
+		}
+		switch kind {
 		case 0:
 			ys = append(ys, c) // an exact cumulative level: borderline by construction
 		case 1:
@@ -593,6 +664,64 @@ func c07Gen(tier string, rng *rand.Rand, emit func(interface{})) {
 			src = append(src, rng.Int63n(1<<53)<<10) // never consumed
 		}
 		emit(c07Case{Op: 4, Knots: knots, Bl: F64(bl), Bh: F64(bh), Src: src})
+	}
+	// (b2) the other built-ins without a quantile method: relational
+	relYs := func(levels []float64) []F64 {
+		ys := []float64{0, 1, 0.5, 0.001, 0.999, 0.025, 0.975}
+		for j := 0; j < 6; j++ {
+			ys = append(ys, 0.001+0.998*rng.Float64())
+		}
+		ys = append(ys, levels...)
+		// levels within a few ulps of 0 or 1 are left out here: the float64 CDFs of these
+		// distributions are flat over long stretches there, so "smallest x" is a matter of rounding
+		odd := []float64{math.Copysign(0, -1), -0.5, 1.5, math.NaN(), math.Inf(1), math.Inf(-1), -1e-300, 1 + math.Ldexp(1, -52), 2, -1}
+		ys = append(ys, odd[rng.Intn(len(odd))], odd[rng.Intn(len(odd))])
+		return toF64s(ys)
+	}
+	for i := 0; i < 40*mul; i++ {
+		v := []float64{1, 2, 3, 5, 10, 30, 100, 0.5, 1.5, 1000}[rng.Intn(10)]
+		if rng.Intn(3) == 0 {
+			v = 0.5 + 50*rng.Float64()
+		}
+		emit(c07Case{Op: 6, Kind: 0, A: F64(v), Ys: relYs(nil)})
+	}
+	for i := 0; i < 40*mul; i++ {
+		n1, n2 := 1+rng.Intn(5), 1+rng.Intn(5)
+		var t []int
+		if rng.Intn(2) == 0 { // a random tie vector summing to n1+n2
+			for left := n1 + n2; left > 0; {
+				k := 1 + rng.Intn(3)
+				if k > left {
+					k = left
+				}
+				t = append(t, k)
+				left -= k
+			}
+		}
+		d := stats.UDist{N1: n1, N2: n2, T: t}
+		var levels []float64
+		if pan, _ := catch(func() {
+			for j := 0; j < 4; j++ {
+				u := float64(rng.Intn(2*n1*n2+1)) / 2
+				c := d.CDF(u)
+				if c > 0 && c < 1 {
+					levels = append(levels, c, math.Nextafter(c, 2), math.Nextafter(c, -1)) // exact cumulative level and its neighbours
+				}
+			}
+		}); pan {
+			continue
+		}
+		emit(c07Case{Op: 6, Kind: 1, N: n1, K: n2, T: t, Ys: relYs(levels)})
+	}
+	for i := 0; i < 30*mul; i++ {
+		n := 1 + rng.Intn(12)
+		c := []float64{0, 10, -1000, 1e6, -1e6}[rng.Intn(5)]
+		sc := math.Ldexp(1, rng.Intn(16)-8)
+		xs := make([]float64, n)
+		for j := range xs {
+			xs[j] = c + sc*float64(rng.Intn(65)-32)/8
+		}
+		emit(c07Case{Op: 6, Kind: 2, Xs: toF64s(xs), B: F64(sc * float64(1+rng.Intn(8)) / 4), Ys: relYs(nil)})
 	}
 	// (e) supporting evidence: Kolmogorov-Smirnov distance of seeded draws
 	nks, draws := 12, 50000
